@@ -307,7 +307,10 @@ def verdep1(ctx: Ctx, chk) -> None:
     # the gateway object itself: it hands the active protocol to the two handler lookups and to the schema, nothing else
     gw = ctx.cls("aiomysensors.gateway.Gateway")
     m = 0
-    names = ("self.protocol_version", "self.protocol", "self._protocol", "self._protocol_version")
+    from .common import state_attrs
+
+    sa_ = state_attrs(ctx)
+    names = ("self.protocol_version", "self.protocol", f"self.{sa_['protocol']}", f"self.{sa_['version']}")
     for fl in gw.mro_methods().values():
         for f in fl:
             for node in ctx.own_nodes(f):
